@@ -1002,7 +1002,11 @@ Message *Session::generate_sequence_reset(const unsigned newseqnum, const bool g
 	*msg << new new_seq_num(newseqnum);
 
 	if (gapfillflag)
+	{
 		*msg << new gap_fill_flag(true);
+		// a gap fill answers a ResendRequest: it stands in for messages sent before and is flagged as a possible duplicate
+		*msg->Header() << new poss_dup_flag(true) << new orig_sending_time;
+	}
 
 	return msg;
 }
